@@ -309,6 +309,7 @@ func (s *Sorts) declarations() string {
 			conds = append(conds, fmt.Sprintf("(=> ((_ is %s) v) %s)", c.ctor, inner))
 		}
 	}
+	conds = append(conds, "(=> ((_ is VOther) v) (>= (oth_ty v) 1))")
 	fmt.Fprintf(&b, "(define-fun idsOK ((v Val) (b Int)) Bool %s)\n", And(conds...))
 	// valSmall(v): size hints used only when asking for small models to replay
 	b.WriteString("(define-fun sliceSmall ((s Slice)) Bool (and (<= (s_len s) 3) (<= (s_cap s) 4) (<= (s_off s) 2) (<= (s_arr s) 60)))\n")
